@@ -388,4 +388,74 @@ theorem up_run_le (t : Topo) (ho : t.handOver = true) (wo wi : WId) (r : RId)
     simp only [upTaken, Teardown.run]
     omega
 
+/-! ### The action returns after the node was closed
+
+A request can be inside a node's action when the node is closed (`Node.Close`: in-port, out-port,
+`Tracer.Close`).  When the action returns, the forward loop goes on with its remaining tracer calls
+– `Link`, `Write` – for that request.  In the model that is a `fwd` step after the closes: the write
+on the closed out-writer is refused, the request is recorded with itself as its answer and passed up
+to the closed in-reader, which ignores it.  Nothing changes for anybody: what the requester was
+owed it got from the drop notices of the closed in-reader. -/
+
+theorem applyC_write_done (c : Comp) (v : Nat) (hd : c.w.done = true) : (applyC .discard c (.w (.write v))).1 = c := by
+  have e : Writer.step c.w (.write v) = (c.w, { ret := .cnt 0 }) := by simp [Writer.step, stepWith, hd]
+  simp only [applyC, e, enqAll_nil, isClose, accepts, Bool.false_eq_true, if_false]
+  rfl
+
+theorem applyC_answer_noop (c : Comp) (r : RId) (a : Ans) (hp : c.w.pend r = []) :
+    (applyC .discard c (.w (.answer r a))).1 = c := by
+  have e : Writer.step c.w (.answer r a) = (c.w, { ret := .ok false }) := by simp [Writer.step, stepWith, hp]
+  simp only [applyC, e, enqAll_nil, isClose, accepts, Bool.false_eq_true, if_false]
+  rfl
+
+theorem flush_noop_comp (t : Topo) (w : WId) (r : RId) (l : List (Nat × Option Ans)) : ∀ s : Sys,
+    (s.comp w).w.pend r = [] → ∀ x, (flushReads .discard t w r s l).1.comp x = s.comp x := by
+  induction l with
+  | nil => intro s _ x; rfl
+  | cons e rest ih =>
+    intro s hp x
+    obtain ⟨v, oa⟩ := e
+    cases oa with
+    | none => rfl
+    | some a =>
+      simp only [flushReads]
+      have hc : ∀ y, (applyPrim .discard t s w (.w (.answer r a))).1.comp y = s.comp y := by
+        intro y
+        rw [applyPrim_comp]
+        split
+        · rename_i hy; subst hy; exact applyC_answer_noop _ r a hp
+        · rfl
+      rw [ih _ (by rw [hc w]; exact hp) x, hc x]
+
+/-- **The action returns after the node was closed**: a `fwd` step on a closed in-reader `(w, r)`
+whose node's out-writer `wo` is closed leaves every component – writer machine, pump, what every
+requester has received and is owed – exactly as it was, adds no waiting request to the node's
+`reads`, and does not panic. -/
+theorem fwd_after_close (t : Topo) (s : Sys) (w : WId) (r : RId) (wo : WId) (hl : t.listener w r = .node wo)
+    (hp : (s.comp w).w.pend r = []) (hd : (s.comp wo).w.done = true) :
+    (∀ x, (Teardown.step .discard t s (.fwd w r)).1.comp x = s.comp x) ∧
+    waiting ((Teardown.step .discard t s (.fwd w r)).1.reads w r) = waiting (s.reads w r) ∧
+    ((Teardown.step .discard t s (.fwd w r)).2 = .skip ∨
+     (Teardown.step .discard t s (.fwd w r)).2 = .c (.w { ret := .cnt 0 })) := by
+  simp only [Teardown.step, hl]
+  cases hi : s.inbox w r with
+  | nil => exact ⟨fun _ => rfl, rfl, Or.inl rfl⟩
+  | cons v rest =>
+    simp only
+    have hd1 : (({ s with inbox := fun x y => if x = w ∧ y = r then rest else s.inbox x y } : Sys).comp wo).w.done = true := hd
+    have hc : ∀ y, (applyPrim .discard t { s with inbox := fun x y => if x = w ∧ y = r then rest else s.inbox x y } wo (.w (.write v))).1.comp y = s.comp y := by
+      intro y
+      rw [applyPrim_comp]
+      split
+      · rename_i hy; subst hy; exact applyC_write_done _ v hd
+      · rfl
+    refine ⟨?_, ?_, Or.inr ?_⟩
+    · intro x
+      rw [setReads_comp, flush_noop_comp t w r _ _ (by rw [hc w]; exact hp) x, hc x]
+    · simp only [setReads, and_self, if_true]
+      rw [(flush_waiting _ _ _ _ _).1, applyPrim_write_done t _ wo v hd1]
+      simp only
+      rw [waiting_append_some]
+    · rw [applyPrim_write_done t _ wo v hd1]
+
 end Uniflow.TeardownProofs
